@@ -216,19 +216,10 @@ func (e *kvElection) handleHeartbeatFailure(err error) {
 		)...,
 	)
 
-	e.becomeFollower()
-
-	e.mu.RLock()
-	onDemote := e.onDemote
-	e.mu.RUnlock()
-
-	if onDemote != nil {
-		log.Info("leader_demoted",
-			append(e.logWithContext(e.ctx),
-				zap.String("reason", "heartbeat_failure"),
-			)...,
-		)
-		onDemote()
+	// Another mechanism (or Stop) may have ended this term already: OnDemote
+	// runs once per term.
+	if e.becomeFollower() {
+		e.notifyDemoted("heartbeat_failure")
 	}
 }
 
@@ -241,18 +232,9 @@ func (e *kvElection) handleHealthCheckFailure() {
 		)...,
 	)
 
-	e.becomeFollower()
-
-	e.mu.RLock()
-	onDemote := e.onDemote
-	e.mu.RUnlock()
-
-	if onDemote != nil {
-		log.Info("leader_demoted",
-			append(e.logWithContext(e.ctx),
-				zap.String("reason", "health_check_failure"),
-			)...,
-		)
-		onDemote()
+	// Another mechanism (or Stop) may have ended this term already: OnDemote
+	// runs once per term.
+	if e.becomeFollower() {
+		e.notifyDemoted("health_check_failure")
 	}
 }
